@@ -48,6 +48,7 @@ struct AllocSim
 	uint64_t next_id = 1;
 	std::map<void *, LiveRec> live;  // allocations made inside library calls and not yet freed
 	void (*free_hook)(void *) = nullptr; // called for every free() coming from inside a library call
+	void (*alloc_hook)(void *) = nullptr; // called for every successful allocation made inside a library call
 	bool record_sites = false;       // collect the call-site of every allocation (coverage of sites)
 	std::set<std::string> sites_seen;
 	void reset_run();
